@@ -578,7 +578,7 @@ async fn interact<C: Crypto>(runner: &Runner<C>, op: &Op, seen: &core::cell::Ref
         }
         let mut next_idx: NextIdx = [[0usize; N_LIST as usize]; 2];
         // the device reports on an exchange of its own; nothing to report = no exchange
-        let Some(rep) = (Budget { f: Box::pin(rs_matter::transport::exchange::Exchange::accept(&runner.matter_client)), left: 30_000 }).await else {
+        let Some(rep) = (Budget { f: Box::pin(rs_matter::transport::exchange::Exchange::accept(&runner.matter_client)), left: 8_000 }).await else {
             return Ok(format!("none:{}", id));
         };
         let mut rep = rep?;
@@ -636,6 +636,8 @@ struct Budget<F> {
     left: u64,
 }
 
+impl<F> Unpin for Budget<F> {}
+
 impl<F: Future> Future for Budget<F> {
     type Output = Option<F::Output>;
     fn poll(mut self: core::pin::Pin<&mut Self>, cx: &mut Context<'_>) -> Poll<Self::Output> {
@@ -650,7 +652,7 @@ impl<F: Future> Future for Budget<F> {
     }
 }
 
-const OP_POLLS: u64 = 400_000;
+const OP_POLLS: u64 = 60_000;
 
 /// run the ops of all cases against the real device; a request that gets no (complete) answer
 /// within the poll budget is reported as `hang` and the remaining ops continue on a fresh device
@@ -683,8 +685,14 @@ fn drive(cases: &[Case], out: &mut Out) {
                         let optext = &c.ops[oi];
                         let op = parse_op(optext);
                         let seen = core::cell::RefCell::new(Seen::default());
-                        let o = Budget { f: Box::pin(interact(&runner, &op, &seen)), left: OP_POLLS }.await;
+                        let mut budget = Budget { f: Box::pin(interact(&runner, &op, &seen)), left: OP_POLLS };
+                        let o = (&mut budget).await;
                         pos += 1;
+                        if o.is_some() {
+                            // how much of the poll budget answered requests need (power-of-two buckets)
+                            let used = OP_POLLS - budget.left;
+                            out.stat(&format!("polls_below_2^{}", 64 - used.leading_zeros()), 1);
+                        }
                         let got = seen.borrow();
                         let queue = if got.queue.is_empty() { "-".to_string() } else { got.queue.clone() };
                         let ch = if got.chunks.is_empty() { "-".to_string() } else { got.chunks.join(";") };
@@ -993,7 +1001,7 @@ fn gen_op(r: &mut Rng, k: K, force_multi: bool, thorough: bool, out: &mut Out) -
             let len = match r.below(20) {
                 0 | 1 => 0,
                 2..=8 => rg(r, 1, 60.min(maxv as u64)) as usize,
-                9..=12 => rg(r, 60.min(maxv as u64), 400.min(maxv as u64).max(61)) as usize,
+                9..=12 => rg(r, 60.min(maxv as u64), 400.min(maxv as u64)) as usize,
                 13 | 14 => rg(r, 1, maxv as u64) as usize,
                 15..=18 => {
                     out.stat("gen_event_boundary", 1);
@@ -1049,7 +1057,7 @@ pub fn gen(a: &Args) -> String {
     };
     let kv: Vec<usize> = k.split_whitespace().map(|x| x.parse::<i64>().unwrap_or(0).max(0) as usize).collect();
     let kt = K { ks: kv[0], ki: kv[3], kv: kv[5] };
-    let n_cases = if a.thorough { 5000 } else { 400 };
+    let n_cases = if a.thorough { 25000 } else { 2000 };
     let mut cases = Vec::new();
     for id in 0..n_cases {
         let mut cr = r.fork();
